@@ -113,3 +113,145 @@ def patched_corpus_meds(rng, files, dirname, limit):
 
 
 GENS = GENS + [gen_med_jmp, gen_med_jmp]
+
+
+# --------------------------------------------------------------------------
+# chunked (IFF-style) formats: a chunk of unknown id declaring a length near 2^32 / 2^31
+# --------------------------------------------------------------------------
+
+# magic -> (offset of the first chunk, id length, size endianness)
+CHUNKED = [(b"OKTASONG", 8, 4, ">"), (b"DBM0", 8, 4, ">"), (b"FORM", 12, 4, ">"), (b"DMDL", 5, 2, "<"), (b"D.T.", 0, 4, ">"),
+           (b"PSM ", 12, 4, "<"), (b"RIFF", 12, 4, "<"), (b"MUSX", 8, 4, "<"), (b"GDM\xfe", 0, 4, "<")]
+HUGE_LEN = [0xfffffff8, 0xffffffff, 0xfffffff0, 0x80000000, 0x7fffffff, 0x7ffffff8, 0xfffffffc]
+
+
+def chunk_boundaries(data):
+    for magic, start, idlen, end in CHUNKED:
+        if data.startswith(magic):
+            out, pos = [], start
+            while pos + idlen + 4 <= len(data) and len(out) < 64:
+                size = struct.unpack_from(end + "I", data, pos + idlen)[0]
+                out.append(pos)
+                nxt = pos + idlen + 4 + size
+                if size > len(data) or nxt <= pos:
+                    break
+                pos = nxt
+            return out, idlen, end
+    return [], 0, ">"
+
+
+def chunk_liar(data, rng):
+    """insert a chunk with an id no loader registers and a huge declared length at a chunk boundary, or
+    rewrite the header of an existing chunk that way"""
+    bounds, idlen, end = chunk_boundaries(data)
+    if not bounds:
+        return None
+    pos = rng.choice(bounds)
+    cid = rng.choice([b"XXXX", b"ZZZZ", b"junk", b"\0\0\0\0", b"~~~~"])[:idlen]
+    hdr = cid + struct.pack(end + "I", rng.choice(HUGE_LEN))
+    b = bytearray(data)
+    if rng.random() < 0.6:
+        b[pos:pos] = hdr + bytes(rng.choice([0, 4, 8]))
+    else:
+        b[pos:pos + idlen + 4] = hdr
+    return bytes(b)
+
+
+def okt_minimal(rng):
+    """a minimal Oktalyzer module written from the format description (one pattern, one sample)"""
+    def ch(cid, body):
+        return cid + struct.pack(">I", len(body)) + body
+    smp = bytes(20) + struct.pack(">IHHHH", 16, 0, 8, 64, 1)          # name, length, repeat, replen, pad+vol, type
+    samp = smp + bytes(32 * 35)
+    patt = struct.pack(">H", 4) + bytes(4 * 4 * 4)
+    data = (b"OKTASONG" + ch(b"CMOD", bytes(8)) + ch(b"SAMP", samp) + ch(b"SPEE", struct.pack(">H", 6)) +
+            ch(b"SLEN", struct.pack(">H", 1)) + ch(b"PLEN", struct.pack(">H", 1)) + ch(b"PATT", bytes(128)) +
+            ch(b"PBOD", patt) + ch(b"SBOD", bytes(rng.randrange(256) for _ in range(16))))
+    return data
+
+
+def gen_chunk_liar(rng):
+    return chunk_liar(okt_minimal(rng), rng), "okt"
+
+
+def chunk_liars_from_corpus(rng, files, dirname, limit):
+    import os
+    out = []
+    cand = []
+    for f in files:
+        try:
+            if os.path.getsize(f) > 400000:
+                continue
+            with open(f, "rb") as fh:
+                head = fh.read(8)
+        except OSError:
+            continue
+        if any(head.startswith(m[0]) for m in CHUNKED):
+            cand.append(f)
+    rng.shuffle(cand)
+    for f in cand:
+        data = open(f, "rb").read()
+        p = chunk_liar(data, rng)
+        if p is None:
+            continue
+        path = os.path.join(dirname, "chunkliar%03d%s" % (len(out), os.path.splitext(f)[1][:6] or ".bin"))
+        with open(path, "wb") as fh:
+            fh.write(p)
+        out.append(path)
+        if len(out) >= limit:
+            break
+    return out
+
+
+# --------------------------------------------------------------------------
+# container headers cut short at every byte (optional gzip fields: FEXTRA, FNAME, FCOMMENT, FHCRC)
+# --------------------------------------------------------------------------
+
+def gz_variants(payload):
+    import zlib
+    co = zlib.compressobj(6, zlib.DEFLATED, -15)
+    body = co.compress(payload) + co.flush()
+    trailer = struct.pack("<II", zlib.crc32(payload) & 0xffffffff, len(payload) & 0xffffffff)
+    out = []
+    for flg in (0x00, 0x04, 0x08, 0x10, 0x18, 0x1c, 0x02, 0x1e):
+        h = bytearray(b"\x1f\x8b\x08" + bytes([flg]) + bytes(4) + b"\x00\x03")
+        if flg & 0x04:
+            h += struct.pack("<H", 6) + b"ab\x02\x00xy"
+        if flg & 0x08:
+            h += b"song.mod\0"
+        if flg & 0x10:
+            h += b"a comment of some length\0"
+        hdr_len = len(h) + (2 if flg & 0x02 else 0)
+        if flg & 0x02:
+            h += struct.pack("<H", zlib.crc32(bytes(h)) & 0xffff)
+        out.append((bytes(h) + body + trailer, hdr_len))
+    return out
+
+
+def header_cuts(rng, dirname, packed_files, limit):
+    """gzip files with every optional header field, cut at every byte of the header; and the first bytes of
+    packed corpus files cut likewise"""
+    import os
+    out = []
+    mod = synthmods.gen_mod(rng)[0][:3000]
+    for data, hl in gz_variants(mod):
+        cuts = list(range(10, hl + 3))
+        rng.shuffle(cuts)
+        for c in cuts[:max(2, limit // 16)]:
+            path = os.path.join(dirname, "gzcut%03d.gz" % len(out))
+            with open(path, "wb") as fh:
+                fh.write(data[:c])
+            out.append(path)
+    pf = [f for f in packed_files if os.path.getsize(f) < 200000]
+    rng.shuffle(pf)
+    for f in pf[:max(2, limit // 8)]:
+        data = open(f, "rb").read()
+        for c in rng.sample(range(1, min(len(data), 96)), min(4, max(1, min(len(data), 96) - 1))):
+            path = os.path.join(dirname, "hdrcut%03d%s" % (len(out), os.path.splitext(f)[1][:6] or ".bin"))
+            with open(path, "wb") as fh:
+                fh.write(data[:c])
+            out.append(path)
+    return out
+
+
+GENS = GENS + [gen_chunk_liar]
